@@ -67,34 +67,12 @@ let nth_opt l i = if i < 0 then None else OLst.nth_opt l i
 type 'a sp = SAny | SRefuse | SIs of 'a
 let of_answer = function Region x -> SIs x | Refuse -> SRefuse | Unconstrained -> SAny
 let show_sp f = function SAny -> "ANY" | SRefuse -> "ERR nix::OutOfBounds" | SIs v -> "OK " ^ f v
-(* a list retrieval is the list of the single retrievals: refused if one is refused *)
-let sp_list (l : 'a sp olist) : 'a olist sp =
-  if OLst.exists (fun x -> x = SAny) l then SAny
-  else if OLst.exists (fun x -> x = SRefuse) l then SRefuse
-  else SIs (OLst.map (function SIs v -> v | _ -> assert false) l)
-
-(* specification of a Tag retrieval on array a: region + the ids judged pointwise on the coordinates *)
-let spec_tag incl a =
-  let ws = tag_wants !the_tag a in
-  match of_answer (spec_answer incl a ws) with
-  | SIs (o, c) -> SIs (o, c, spec_ids incl a ws)
-  | SRefuse -> SRefuse | SAny -> SAny
-let spec_mtag incl a i =
-  match of_answer (spec_answer_mtag incl !the_mtag a i) with
-  | SIs (o, c) -> SIs (o, c, spec_ids incl a (mtag_wants !the_mtag a i))
-  | SRefuse -> SRefuse | SAny -> SAny
-let whole_sp a = match of_answer (spec_whole a) with
-  | SIs (o, c) -> SIs (o, c, view_ids a.a_shape o c) | SRefuse -> SRefuse | SAny -> SAny
-let slice_sp a i = match of_answer (spec_slice a i) with
-  | SIs (o, c) -> SIs (o, c, view_ids a.a_shape o c) | SRefuse -> SRefuse | SAny -> SAny
-let show_oc3 (o, c, _) = zs o ^ " " ^ zs c
-let show_view3 (_, c, ids) = zs c ^ " " ^ zs ids
+let show_oc3 ((o, c), _) = zs o ^ " " ^ zs c
+let show_view3 ((_, c), ids) = zs c ^ " " ^ zs ids
 (* getOffsetAndCount alone does not look at the data bounds: a refusal is not demanded of it *)
 let offcnt_sp s = match s with SRefuse -> SAny | x -> x
 
 let idx_list toks = fst (counted z_of_string toks)
-let all_positions idxs = if idxs = [] then OLst.init (int_of_z (mtag_npos !the_mtag)) z_of_int else idxs
-
 let handle toks =
   let b = behaviour_used in
   match toks with
@@ -137,73 +115,60 @@ let handle toks =
   (* ---- Tag ---- *)
   | ["offcnt"; aid; m] ->
     let a = arr aid and m = mode_of `Offcnt m in
-    (* an absent extent makes the tag code switch to Inclusive: the region of a point tag does not depend on the mode *)
-    show_res show_oc (getOffsetAndCount_tag b !the_tag a m) ^ " ## " ^ show_sp show_oc3 (offcnt_sp (spec_tag (incl_of m) a))
+    show_res show_oc (getOffsetAndCount_tag b !the_tag a m)
+    ^ " ## " ^ show_sp show_oc3 (offcnt_sp (of_answer (spec_tag_view (incl_of m) !the_tag a)))
   | ["tagged"; r; m] ->
     let m = mode_of `Retr m and r = oint_of_string r in
-    let model = (match nth_opt !refs r with
-        | Some a -> show_res (show_view a.a_shape) (taggedData_tag_ref b !the_tag (z_of_int r) m)
-        | None -> show_res (fun _ -> "") (taggedData_tag_ref b !the_tag (z_of_int r) m)) in
-    let spec = (match nth_opt !refs r with Some a -> spec_tag (incl_of m) a | None -> SRefuse) in
-    model ^ " ## " ^ show_sp show_view3 spec
+    let res = taggedData_tag_ref b !the_tag (z_of_int r) m in
+    (match nth_opt !refs r with
+     | Some a -> show_res (show_view a.a_shape) res ^ " ## " ^ show_sp show_view3 (of_answer (spec_tag_view (incl_of m) !the_tag a))
+     | None -> show_res (fun _ -> "") res ^ " ## ERR nix::OutOfBounds")
   | ["taggeda"; aid; m] ->
     let a = arr aid and m = mode_of `Retr m in
-    show_res (show_view a.a_shape) (taggedData_tag b !the_tag a m) ^ " ## " ^ show_sp show_view3 (spec_tag (incl_of m) a)
+    show_res (show_view a.a_shape) (taggedData_tag b !the_tag a m)
+    ^ " ## " ^ show_sp show_view3 (of_answer (spec_tag_view (incl_of m) !the_tag a))
   | ["feature"; k; m] ->
     let m = mode_of `Retr m and k = oint_of_string k in
-    let model = (match nth_opt !feats k with
-        | Some f -> show_res (show_view f.f_data.a_shape) (featureData_tag b !the_tag (z_of_int k) m)
-        | None -> show_res (fun _ -> "") (featureData_tag b !the_tag (z_of_int k) m)) in
-    let spec = (match nth_opt !feats k with
-        | Some f -> (match f.f_link with LTagged -> spec_tag (incl_of m) f.f_data | _ -> whole_sp f.f_data)
-        | None -> SRefuse) in
-    model ^ " ## " ^ show_sp show_view3 spec
+    let res = featureData_tag b !the_tag (z_of_int k) m in
+    (match nth_opt !feats k with
+     | Some f -> show_res (show_view f.f_data.a_shape) res ^ " ## " ^ show_sp show_view3 (of_answer (spec_tag_feature (incl_of m) !the_tag f))
+     | None -> show_res (fun _ -> "") res ^ " ## ERR nix::OutOfBounds")
   (* ---- MultiTag ---- *)
   | "moffcnt" :: aid :: m :: rest ->
     let a = arr aid and m = mode_of `Offcnt m and idxs = idx_list rest in
+    let spec = answers (OLst.map (fun i -> match spec_mtag_view (incl_of m) !the_mtag a i with Refuse -> Unconstrained | x -> x) idxs) in
     show_res (show_list show_oc) (getOffsetAndCount_mtag b !the_mtag a idxs m)
-    ^ " ## " ^ show_sp (show_list show_oc3) (sp_list (OLst.map (fun i -> offcnt_sp (spec_mtag (incl_of m) a i)) idxs))
+    ^ " ## " ^ show_sp (show_list show_oc3) (of_answer spec)
   | ["moffcnt1"; aid; m; i] ->
     let a = arr aid and m = mode_of `Offcnt m and i = z_of_string i in
-    show_res show_oc (getOffsetAndCount_mtag1 b !the_mtag a i m) ^ " ## " ^ show_sp show_oc3 (offcnt_sp (spec_mtag (incl_of m) a i))
+    show_res show_oc (getOffsetAndCount_mtag1 b !the_mtag a i m)
+    ^ " ## " ^ show_sp show_oc3 (offcnt_sp (of_answer (spec_mtag_view (incl_of m) !the_mtag a i)))
   | "mtagged" :: r :: m :: rest ->
     let m = mode_of `Retr m and r = oint_of_string r and idxs = idx_list rest in
     let res = taggedData_mtag_ref b !the_mtag idxs (z_of_int r) m in
     (match nth_opt !refs r with
      | Some a ->
        show_res (show_list (show_view a.a_shape)) res
-       ^ " ## " ^ show_sp (show_list show_view3) (sp_list (OLst.map (spec_mtag (incl_of m) a) (all_positions idxs)))
+       ^ " ## " ^ show_sp (show_list show_view3) (of_answer (spec_mtag_views (incl_of m) !the_mtag a idxs))
      | None -> show_res (fun _ -> "") res ^ " ## ERR nix::OutOfBounds")
   | ["mtagged1"; r; m; i] ->
     let m = mode_of `Retr m and r = oint_of_string r and i = z_of_string i in
     let res = taggedData_mtag1_ref b !the_mtag i (z_of_int r) m in
     (match nth_opt !refs r with
-     | Some a -> show_res (show_view a.a_shape) res ^ " ## " ^ show_sp show_view3 (spec_mtag (incl_of m) a i)
+     | Some a -> show_res (show_view a.a_shape) res ^ " ## " ^ show_sp show_view3 (of_answer (spec_mtag_view (incl_of m) !the_mtag a i))
      | None -> show_res (fun _ -> "") res ^ " ## ERR nix::OutOfBounds")
   | "mfeature" :: k :: m :: rest ->
     let m = mode_of `Retr m and k = oint_of_string k and idxs = idx_list rest in
     let res = featureData_mtag b !the_mtag idxs (z_of_int k) m in
     (match nth_opt !feats k with
      | Some f ->
-       let a = f.f_data in
-       let one i = (match f.f_link with
-           | LTagged -> spec_mtag (incl_of m) a i
-           | LUntagged -> if Zar.lt (zarith_of_z i) (zarith_of_z (mtag_npos !the_mtag)) && Zar.sign (zarith_of_z i) >= 0 then whole_sp a else SRefuse
-           | LIndexed -> if Zar.lt (zarith_of_z i) (zarith_of_z (mtag_npos !the_mtag)) && Zar.sign (zarith_of_z i) >= 0 then slice_sp a i else SRefuse) in
-       show_res (show_list (show_view a.a_shape)) res
-       ^ " ## " ^ show_sp (show_list show_view3) (sp_list (OLst.map one (all_positions idxs)))
+       show_res (show_list (show_view f.f_data.a_shape)) res
+       ^ " ## " ^ show_sp (show_list show_view3) (of_answer (spec_mtag_features (incl_of m) !the_mtag f idxs))
      | None -> show_res (fun _ -> "") res ^ " ## ERR nix::OutOfBounds")
   | ["mfeature1"; k; m; i] ->
     let m = mode_of `Retr m and k = oint_of_string k and i = z_of_string i in
     let res = featureData_mtag1 b !the_mtag i (z_of_int k) m in
     (match nth_opt !feats k with
-     | Some f ->
-       let a = f.f_data in
-       let inpos = Zar.lt (zarith_of_z i) (zarith_of_z (mtag_npos !the_mtag)) && Zar.sign (zarith_of_z i) >= 0 in
-       let spec = (match f.f_link with
-           | LTagged -> spec_mtag (incl_of m) a i
-           | LUntagged -> if inpos then whole_sp a else SRefuse
-           | LIndexed -> if inpos then slice_sp a i else SRefuse) in
-       show_res (show_view a.a_shape) res ^ " ## " ^ show_sp show_view3 spec
+     | Some f -> show_res (show_view f.f_data.a_shape) res ^ " ## " ^ show_sp show_view3 (of_answer (spec_mtag_feature (incl_of m) !the_mtag f i))
      | None -> show_res (fun _ -> "") res ^ " ## ERR nix::OutOfBounds")
   | _ -> failwith ("bad command " ^ OStr.concat " " toks)
